@@ -133,6 +133,19 @@ func scenarioSched(c *vrun.Ctx) {
 					c.Violation(propOr(p.Prop, "C19")+"/"+p.Name+"/notified-after-destroy", "a cache that had been destroyed was still notified of a later limit change: "+r.history(), x)
 				}
 				for _, k := range p.ExpectPresent {
+					// (only an entry that was in fact stored: a memory cache with a single shard lock cannot evict
+					// from inside a store and refuses the store instead)
+					refused := false
+					for _, t := range r.recs {
+						for _, o := range t {
+							if strings.HasPrefix(o.Op, "S") && strings.HasPrefix(o.Op[strings.Index(o.Op, ":")+1:], k+":") {
+								refused = o.Err != ""
+							}
+						}
+					}
+					if refused {
+						continue
+					}
 					if _, ok := r.end.Retrievable[k]; !ok {
 						c.Violation("C13/"+p.Name+"/fresh-entry-removed", "entry "+k+" was stored fresh and nothing but the cleanup cycle could remove it, yet it is gone at the end: "+r.history(), x)
 					}
